@@ -319,10 +319,8 @@ def gen(ctx):
                     cls_, _ = media_class(mt)
                     if not full:
                         # quick: every body with two documented forms, one refused form, rotating the rest
-                        pick = k % 5 == 0 or (cls_.startswith('documented') and k % 3 == 0) or (fam == 'non-utf8' and k % 2 == 0)
+                        pick = k % 2 == 0 or cls_.startswith('documented') or fam == 'non-utf8'
                         if not pick:
-                            continue
-                        if (root, status_kind) not in (('/rpc', 'default'), ('/api', 'table'), ('/api/v1/', 'any-error-400'), ('/api', 'default')):
                             continue
                     yield 'post', dict(root=root, status_kind=status_kind, path_key='added' if k % 4 == 0 else 'root',
                                        media_type=mt, body_hex=b.hex(), family=fam)
